@@ -225,7 +225,17 @@ fn dump_const_item<'tcx>(tcx: TyCtxt<'tcx>, ld: LocalDefId, kind: DefKind) -> J 
             Ok(alloc) => {
                 let a = alloc.inner();
                 let bytes = a.inspect_with_uninit_and_ptr_outside_interpreter(0..a.len());
-                J::obj(vec![("kind", J::s("bytes")), ("bytes", J::bytes(bytes))])
+                // follow one level of pointers (e.g. `static T: &[u8] = &[..]`)
+                let mut ptrs = Vec::new();
+                for (off, prov) in a.provenance().ptrs().iter() {
+                    let aid = prov.alloc_id();
+                    if let Some(rustc_middle::mir::interpret::GlobalAlloc::Memory(t)) = tcx.try_get_global_alloc(aid) {
+                        let ta = t.inner();
+                        let tb = ta.inspect_with_uninit_and_ptr_outside_interpreter(0..ta.len());
+                        ptrs.push(J::obj(vec![("offset", J::Int(off.bytes() as i128)), ("bytes", J::bytes(tb))]));
+                    }
+                }
+                J::obj(vec![("kind", J::s("bytes")), ("bytes", J::bytes(bytes)), ("ptrs", J::Arr(ptrs))])
             }
             Err(_) => J::Null,
         },
